@@ -102,6 +102,9 @@ pub fn parse_imf_fixdate(v: &[u8]) -> Option<i64> {
 
 pub const CANON_DATE: &[u8] = b"Thu, 01 Jan 1970 00:00:00 GMT";
 
+/// wall-clock second at which the current case line was taken up (set by main)
+pub static CASE_START_SECS: std::sync::atomic::AtomicI64 = std::sync::atomic::AtomicI64::new(0);
+
 pub fn now_secs() -> i64 {
     SystemTime::now().duration_since(UNIX_EPOCH).unwrap().as_secs() as i64
 }
